@@ -496,6 +496,8 @@ def run(ctx):
     if not ctx.quick() and not strace_ok:
         ctx.assumptions.append('strace write injection unavailable: write-syscall tier skipped')
     _witness(ctx)
-    for pi in range(ctx.n(2, 20)):
+    # quick: one project (7 enumerated workloads, about 1000 kills) + the witness; DESIGN's two projects
+    # do not fit the 3 minute budget when the machine is shared (measured 0.5 s per cppcheck start under load)
+    for pi in range(ctx.n(1, 20)):
         _do_project(ctx, pi, strace_ok)
 
